@@ -4,6 +4,7 @@ go 1.25.6
 
 require (
 	github.com/DataDog/datadog-traceroute v0.0.0
+	github.com/cenkalti/backoff/v5 v5.0.3
 	golang.org/x/net v0.49.0
 )
 
